@@ -74,6 +74,22 @@ func (vc *VC) globalInitFacts(v *types.Var) {
 		gk := "G:" + v.Pkg().Name() + "." + v.Name()
 		hv := vc.readGlobal(st, gk, v.Type())
 		vc.axiom(fmt.Sprintf("(and (= %s %s) (= %s %s) (= %s %s) (= %s %s))", hv.C[0], arr, hv.C[1], vc.idx(0), hv.C[2], vc.idx(int64(n)), hv.C[3], vc.idx(int64(n))))
+	case *types.Pointer:
+		// `var G = new(T)` / `var G = &T{...}`: the variable holds a non-nil pointer
+		isAlloc := false
+		switch x := ast.Unparen(init).(type) {
+		case *ast.CallExpr:
+			if id, ok := x.Fun.(*ast.Ident); ok && id.Name == "new" {
+				_, isAlloc = pk.TypesInfo.Uses[id].(*types.Builtin)
+			}
+		case *ast.UnaryExpr:
+			_, isAlloc = ast.Unparen(x.X).(*ast.CompositeLit)
+		}
+		if !isAlloc {
+			return
+		}
+		hv := vc.readGlobal(st, "G:"+v.Pkg().Name()+"."+v.Name(), v.Type())
+		vc.axiom("(not (= " + hv.C[0] + " 0))")
 	default:
 		if tv, ok := pk.TypesInfo.Types[init]; ok && tv.Value != nil {
 			if _, isB := v.Type().Underlying().(*types.Basic); isB {
